@@ -115,7 +115,9 @@ pub struct Ctx {
     pub human_readable_seen: std::cell::Cell<bool>,
 }
 
-pub const ZERO_WIDTH_FLOOD_LIMIT: usize = 300_000;
+/// Upper bound on zero-width elements the harness visitor accepts before it abandons the case;
+/// much smaller under the interpreter, where every element costs milliseconds.
+pub const ZERO_WIDTH_FLOOD_LIMIT: usize = if cfg!(miri) { 2_000 } else { 300_000 };
 
 impl Ctx {
     pub fn new() -> Self {
